@@ -42,13 +42,19 @@ Theorem C05_roundtrip_faithful_writer : forall t, wf t -> no_0x88_key t -> coher
 Proof. exact parse_ser_py_coherent. Qed.
 Print Assumptions C05_roundtrip_faithful_writer.
 
-(* dispatch: writing with compress=c to the conventional extension and reading with None or Some c
-   selects the same flavour; the stream parsed is the same [ser t] (gzip is an oracle:
-   decompress (compress b) = b, monitored by the check) *)
+(* dispatch: a file written with compress=c is read as flavour c when the reader is given the same
+   explicit compress=c -- whatever the extension -- or, for the conventional extension, when it is
+   left to infer (compress=None); an unknown extension cannot be inferred (ValueError).  The stream
+   parsed is the same [ser t] (gzip is an oracle: decompress (compress b) = b, monitored). *)
 Theorem C05_dispatch : forall c,
+  (forall e, read_flavour (Some c) e = ROk (write_flavour c e)) /\
   read_flavour None (conventional_ext c) = ROk (write_flavour c (conventional_ext c)) /\
-  read_flavour (Some c) (conventional_ext c) = ROk (write_flavour c (conventional_ext c)).
-Proof. exact dispatch_conventional. Qed.
+  read_flavour None ExtOther = RErr EValue.
+Proof.
+  intros c. split; [intros e; apply dispatch_explicit_honoured|]. split.
+  - apply dispatch_conventional.
+  - apply dispatch_unknown_ext.
+Qed.
 Print Assumptions C05_dispatch.
 
 Section Gzip.
